@@ -264,7 +264,16 @@ func c02Gen(tier string, seed int64, idx int) c02Case {
 	return c
 }
 
-func c02Run(tier string, seed int64, idx int) *core.Result { return c02RunTopo(tier, seed, idx, "") }
+func c02Run(tier string, seed int64, idx int) *core.Result {
+	if base := tierN(tier, 600, 24000); idx >= base {
+		// streams over the shipped websocket transport
+		wc := wsGen(idx-base, true)
+		res := &core.Result{Verdict: core.Held, Sample: wc, Sig: fmt.Sprintf("%+v/%d", wc, idx)}
+		wsWorkload(seed, idx, wc, "streams", res)
+		return res
+	}
+	return c02RunTopo(tier, seed, idx, "")
+}
 
 // c02RunTopo runs case idx; a non-empty topo forces the topology (used by C16/C18).
 func c02RunTopo(tier string, seed int64, idx int, topo string) *core.Result {
@@ -468,13 +477,13 @@ func init() {
 	core.Register(&core.Prop{
 		ID:    "C02",
 		Level: "exploration",
-		Rule:  "cases = 1..32 concurrent streams on one connection, each a (client program, handler program) pair from 9 admissible families over the 3 stream kinds with counts 0..200 and sizes {0,1,17,1Ki,4Ki,64Ki}; every third case is a directed window: one stream whose terminal receive (or a late send / late half-close) is parked by a hook between its done-check and its blocking step until the stream has been torn down. Non-trivial = the window rendezvous fired, or >=2 streams share the connection, or the stream has separate sender and receiver goroutines; distinct = distinct generated case descriptors.",
-		Plan:  func(tier string, seed int64) int { return tierN(tier, 600, 24000) },
+		Rule:  "cases = 1..32 concurrent streams on one connection, each a (client program, handler program) pair from 9 admissible families over the 3 stream kinds with counts 0..200 and sizes {0,1,17,1Ki,4Ki,64Ki}; every third case is a directed window: one stream whose terminal receive (or a late send / late half-close) is parked by a hook between its done-check and its blocking step until the stream has been torn down. Non-trivial = the window rendezvous fired, or >=2 streams share the connection, or the stream has separate sender and receiver goroutines; distinct = distinct generated case descriptors. Plus (quick 18, thorough 180) cases over the shipped websocket transport on loopback sockets whose writes stall half-way: 2..8 ping-pong bidi streams of 2..5 messages (0..64 KiB) with 2..16 unary calls alongside; every stream must deliver every echo in order and end with io.EOF (30 s wall bound = inconclusive).",
+		Plan:  func(tier string, seed int64) int { return tierN(tier, 600, 24000) + tierN(tier, 18, 180) },
 		Run:   c02Run,
 		MaxStats: []string{"max_streams_per_connection"},
 		Assumptions: []string{"only admissible program pairs (no pair that deadlocks by construction under zero buffering) are generated", "proxy topology limited to <=3 ping-pong style streams (below the proxy buffer)"},
 		RequiredStats: func(string) []string {
-			return []string{"window_rendezvous_fired", "streams_with_two_client_goroutines", "hook:cs.recv.window", "hook:cs.send.window"}
+			return []string{"window_rendezvous_fired", "streams_with_two_client_goroutines", "hook:cs.recv.window", "hook:cs.send.window", "ws_streams_checked"}
 		},
 	})
 }
